@@ -19,3 +19,7 @@ Definition type_hi (size : Z) (signed : bool) : Z :=
   if signed then 2 ^ (8 * size - 1) - 1 else 2 ^ (8 * size) - 1.
 Definition in_type (size : Z) (signed : bool) (v : Z) : bool :=
   (type_lo size signed <=? v) && (v <=? type_hi size signed).
+
+(* <limits.h> with sizeof(long) = 8 (the platform of the check) *)
+Definition LONG_MAX : Z := 2 ^ 63 - 1.
+Definition LONG_MIN : Z := - 2 ^ 63.
